@@ -20,6 +20,7 @@ mod json;
 mod memsafe;
 mod model;
 mod rng;
+mod scanhist;
 mod tfm_ref;
 
 use common::*;
